@@ -72,11 +72,10 @@ func (g *generator) dirs() []Dir {
 		n = 2
 	}
 	var ds []Dir
+	first := g.r.Intn(2)
 	for i := 0; i < n; i++ {
-		name := "skip"
-		if g.r.Intn(2) == 0 {
-			name = "include"
-		}
+		// a directive may appear at most once per node: with two, use one of each
+		name := []string{"skip", "include"}[(first+i)%2]
 		b := g.r.Intn(2) == 0
 		var v Value
 		if g.r.Intn(3) == 0 {
